@@ -20,10 +20,10 @@ RULE = ("cache_create from_envelope: every envelope hierarchy of depth<=3 (4 pay
         "depth 2 from envelopes with 0-3 payloads, states deduplicated by envelope hash. distinct = distinct (tree, "
         "patterns) / histories; non-trivial = outputs were produced and compared or a refusal was predicted by the model")
 ASSUMPTIONS = ["svmc/refcbor.py; cache files read with C10's walker", "pattern semantics: re.fullmatch on the member name"]
-BOUNDS = {"quick": "292 trees (second dependency fixed to a leaf) x 25 pattern pairs; extract histories depth 2",
+BOUNDS = {"quick": "555 trees (second dependency fixed to a leaf) x 25 pattern pairs; extract histories depth 2",
           "thorough": "same trees x 25 pattern pairs x eb in {1,16}; extract histories depth 3"}
 
-PAYSETS = [[], ["#a"], ["#a", "#b"], ["cache://x"]]
+PAYSETS = [[], ["#a"], ["#a", "#b"], ["cache://x"], ["#e", "#a"]]      # "#e" is a zero-length payload
 PATTERNS = [None, "nomatch", ".*", "#a.*", "#dep.*"]
 
 
@@ -53,6 +53,8 @@ def all_trees():
 
 
 def content(path, name):
+    if name == "#e":
+        return b""
     seedv = sum(map(ord, path + "|" + name))
     return bytes((seedv * 7 + i * 3 + 1) % 256 for i in range(5 + seedv % 40))
 
@@ -231,8 +233,8 @@ def _member_at(envelope, path, name):
 
 # -- payload_extract histories -----------------------------------------------------------------------
 
-EXTRACT_SEEDS = {"none": [], "one": ["#a"], "three": ["#a", "#b", "cache://x"]}
-EXTRACT_OPS = [(n, rep, outf) for n in ("#a", "#b", "#zzz") for rep in (False, True) for outf in (False, True)]
+EXTRACT_SEEDS = {"none": [], "one": ["#a"], "empty": ["#e"], "three": ["#a", "#e", "#b", "cache://x"]}
+EXTRACT_OPS = [(n, rep, outf) for n in ("#a", "#e", "#b", "#zzz") for rep in (False, True) for outf in (False, True)]
 
 
 def extract_init():
@@ -255,6 +257,8 @@ def extract_step(hist, agg, expand):
             repl = b"replacement-" + bytes([step, 0, 255])
             if rep:
                 open(repf, "wb").write(repl)
+            if outf:
+                open(outp, "wb").write(b"STALE CONTENT OF AN EARLIER RUN")      # the output path may already exist
             label = f"history {hist[0]} -> {[EXTRACT_OPS[i] for i in hist[1:step + 2]]}"
             present = name in state
             try:
